@@ -11,7 +11,7 @@
 //!   rs a b         -> hash of the direct tuples of a..=b        (exhaustive: 1..=2958465)
 //!   f n            -> the 19 integers of the model layer for serial n
 //!   rf a b         -> hash of the model-layer tuples of a..=b   (thorough: every serial)
-//!   d y m d        -> num n | errnum | errvalue | panic         DATE(y, m, d), any i32 arguments
+//!   d y m d        -> num n | errnum | errvalue | panic         DATE(y, m, d), any i32 arguments (panic: never, since 4f81daf)
 //!   ts y m d       -> ok n | err                                date_to_serial_number, no range check
 //!   iso <wire>     -> num n | other                             text typed into a cell
 //! A hash line stands for all its serials; when the runner's hash differs, lib/c21.py calls this
@@ -226,7 +226,7 @@ fn date_batch(args: &[(i64, i64, i64)]) -> Vec<String> {
         Err(_) => args.iter().map(|_| "batchpanic".to_string()).collect(),
     }
 }
-/// arguments for which chrono may leave its range before the code's own range check
+/// arguments for which chrono leaves its own year range (checked_add_* -> None -> #NUM!); each runs in its own workbook
 fn astronomic(m: i64, d: i64) -> bool {
     m.abs() > 3_000_000 || d.abs() > 90_000_000
 }
@@ -457,6 +457,7 @@ fn main() {
         (2000, 4_000_000, 1), (2000, 1, 100_000_000), (1900, -4_000_000, 1), (9999, 12, -100_000_000),
         (2000, 3_122_000, 1), (2000, 3_121_000, 1), (2000, -3_170_000, 1), (2000, -3_169_000, 1),
         (2000, i32::MAX as i64, 1), (2000, i32::MIN as i64 + 1, 1), (2000, 1, i32::MAX as i64), (2000, 1, i32::MIN as i64 + 1),
+        (2000, i32::MIN as i64, 1), (2000, 1, i32::MIN as i64), (2000, i32::MIN as i64, i32::MIN as i64), (9999, i32::MAX as i64, i32::MAX as i64),
         (2000, 1, 95_000_000), (2000, 1, 95_100_000), (2000, 1, -96_400_000), (2000, 1, -96_500_000),
         (1899, 4_000_000, 1), (10_000, 4_000_000, 1), (-5, 4_000_000, 1),
     ];
@@ -481,9 +482,8 @@ fn main() {
         cs.case(&format!("d {y} {m} {d}"), &obs);
         or.checked += 1;
         if obs == "panic" {
-            // class predicate: the call aborts AND an argument is astronomic (chrono leaves its range)
-            let class = if astronomic(m, d) { "date_fn_panic_astronomic_argument" } else { "date_fn_panic" };
-            or.fail(class, json!({"formula": format!("=DATE({y},{m},{d})")}), format!("Model::evaluate panics on =DATE({y},{m},{d}) (chrono `NaiveDate + Months/Days` out of range)"));
+            // repaired in /repo commit 4f81daf (checked_add_months/days): an abort is an ordinary violation
+            or.fail("date_fn_panic", json!({"formula": format!("=DATE({y},{m},{d})")}), format!("Model::evaluate panics on =DATE({y},{m},{d}) (astronomic argument: {})", astronomic(m, d)));
         }
     }
     dist.insert("date_calls", (dargs.len() + astro.len()) as u64);
